@@ -244,6 +244,8 @@ class IRSpec:
             fr = st.frames[-1]
             return cont(st, ('super', st.env['self'][1], fr.fi.cls))
         if fname == 'OrderedDict' and not e.args:
+            if getattr(self, 'memo_dicts', False):
+                return se.ev(st, ast.Dict(keys=[], values=[]), cont)       # an object-keyed local dictionary (or the initial Instance._pins)
             return cont(st, ('odict_new',))
         if fname == 'id':
             return se.ev(st, e.args[0], lambda s, v: cont(s, ('id', v[1])) if v[0] == 'ref' else se._unsup('id of %s' % v[0]))
@@ -293,7 +295,7 @@ class IRSpec:
             return cont(st, ('str', '?'))
         if fname in ('deepcopy', 'copy'):
             # values of the abstract domain are immutable; a copied list must not alias the slot it was read from
-            return se.ev(st, e.args[0], lambda s, v: cont(s, ('list', v[1], None) if v[0] == 'list' else v))
+            return se.ev(st, e.args[0], lambda s, v: cont(s, ('list', v[1], None) if v[0] == 'list' else (('datacopy', v[1]) if v[0] == 'data' else v)))
         if fname == 'bool':
             return se.ev(st, e.args[0], lambda s, v: cont(s, B(se.truth(s, v))))
         if fname == 'OuterPin.from_instance_and_inner_pin' or fname == 'OuterPinExtended':
@@ -779,7 +781,7 @@ class IRSpec:
                 raise Unsupported('no invariant registered for loop %d of %s (iterates %s)' % (ordinal, fr.fi.qual, dom[0]))
             if dom[0] == 'ref':
                 return se.exit(s, 'TypeError')
-            shape = {'set': 'set', 'list': 'list', 'pinsview': 'opins', 'odict_values': 'opins', 'range': 'range', 'zip': 'zip', 'pdict': 'keys'}.get(dom[0])
+            shape = {'set': 'set', 'list': 'list', 'pinsview': 'opins', 'odict_values': 'opins', 'odict_items': 'opins', 'range': 'range', 'zip': 'zip', 'pdict': 'keys'}.get(dom[0])
             if shape != spec.shape:
                 raise Unsupported('loop %d of %s iterates a %s, its invariant was written for a %s' % (ordinal, fr.fi.qual, shape, spec.shape))
             self.cut(se, s, node, spec, dom, shape, ordinal, nxt, k_ret)
@@ -935,6 +937,9 @@ class IRSpec:
 
         esort = c.Key if shape == 'keys' else c.Ref
         empty = K(esort, False)
+        if esort is c.Ref and n is None:
+            st.pc.append(c.card(empty) == 0)
+            if shape == 'list': st.pc.append(c.card(D) == c.len(dom[1]))     # duplicate-free (obligation above): as many elements as positions
         # (1) initialisation
         lv0 = view(st, empty if n is None else None, None, IntVal(0) if n is not None else None, st.heap)
         for prop, name, g in spec.inv(lv0):
@@ -947,6 +952,9 @@ class IRSpec:
             seen = c.fresh('seen', ArraySort(esort, BoolSort())); it = c.fresh('it', esort)
             x = Const('xq_seen', esort)
             sb.pc += [ForAll([x], Implies(seen[x], D[x]), patterns=[seen[x]]), D[it], Not(seen[it])]
+            if esort is c.Ref:
+                # sizes of the (finite) sets of handled elements: one more after this iteration
+                sb.pc += [c.card(seen) >= 0, c.card(Store(seen, it, True)) == c.card(seen) + 1]
             lvb = view(sb, seen, it, None, sb.heap)
             sb.pc += [g for _, _, g in spec.inv(lvb)]
             if shape == 'opins':
@@ -954,7 +962,7 @@ class IRSpec:
                 # (the body may delete keys; CPython would raise on size change during iteration of the live dict,
                 #  the real code iterates the view `self.pins` -> iter(self._dict.values()))
                 elem = hl['ovals'][dom[1]][it]
-                self.bind_target(sb, node.target, R(elem))
+                self.bind_target(sb, node.target, ('tuple', [R(it), R(elem)]) if dom[0] == 'odict_items' else R(elem))
             elif shape == 'keys':
                 self.bind_target(sb, node.target, ('key', it))
             else:
